@@ -306,6 +306,8 @@ class Contract:
         I.trace.append(("call", self.qual))
         if getattr(self, "assumed", False):
             I.log.append("assumed %s" % self.qual)
+        elif getattr(self, "abstraction", None):
+            I.log.append("assumed %s [verified against its concrete contract; %s]" % (self.qual, self.abstraction))
         I.in_callsite = getattr(I, "in_callsite", 0) + 1
         I._pending_exists = []
         try:
